@@ -48,7 +48,7 @@ func vfGenC05Path(t *rapid.T, label string) string {
 	return strings.Join(parts, "/")
 }
 
-var vfC05OpKinds = []string{"Mkdir", "Mkdir", "MkdirAll", "Create", "Create", "OpenFile", "Remove", "RemoveDirectory", "RemoveAll", "Rename", "PosixRename", "Link", "Symlink", "Symlink",
+var vfC05OpKinds = []string{"Mknode", "Mkdir", "Mkdir", "MkdirAll", "Create", "Create", "OpenFile", "Remove", "RemoveDirectory", "RemoveAll", "Rename", "PosixRename", "Link", "Symlink", "Symlink",
 	"ReadLink", "Stat", "Lstat", "Chmod", "Chtimes", "Chown", "Truncate", "ReadDir", "Glob", "Walk", "RealPath", "StatVFS"}
 
 func vfGenC05(t *rapid.T) vfCaseC05 {
@@ -87,6 +87,11 @@ func vfGenC05(t *rapid.T) vfCaseC05 {
 			op.N = int64(rapid.SampledFrom([]int{0, 1, 5, 100}).Draw(t, "size"))
 		case "Glob":
 			op.Pat = rapid.SampledFrom([]string{"*", "?", "[ab]", "a/*", "*/*", "a/?", "[a-c]/[bd]", "*/*/*", "a", "z*"}).Draw(t, "pat")
+		case "Mknode":
+			// not a client operation: a unix socket appears in both trees (the protocol cannot create one), so
+			// that the operations around it meet a file kind that is neither file, directory nor link (seed
+			// F16). No fifos: opening one blocks in open(2), in the server and in package os alike.
+			op.N = 0
 		}
 		c.Ops = append(c.Ops, op)
 	}
@@ -110,7 +115,7 @@ func vfInfoString(fi os.FileInfo, withSize bool) string {
 		return "<nil>"
 	}
 	m := fi.Mode()
-	s := fmt.Sprintf("%s %v", fi.Name(), m)
+	s := fmt.Sprintf("%s %v dir=%v", fi.Name(), m, fi.IsDir())
 	if withSize && m.IsRegular() {
 		s += fmt.Sprintf(" size=%d", fi.Size())
 	}
@@ -173,6 +178,12 @@ func vfRunC05(ctx *vfCtx, c vfCaseC05) {
 				ctx.Class("decorated-path")
 			}
 			switch op.Op {
+			case "Mknode":
+				mode := uint32(syscall.S_IFSOCK | 0o644)
+				if op.N == 1 {
+					mode = syscall.S_IFIFO | 0o644
+				}
+				gotErr, wantErr = syscall.Mknod(rootS+"/"+op.P, mode, 0), syscall.Mknod(rootT+"/"+op.P, mode, 0)
 			case "Mkdir":
 				gotErr, wantErr = cl.Mkdir(sp(op.P, op.Abs)), os.Mkdir(tp(op.P), 0o755)
 			case "MkdirAll":
